@@ -47,7 +47,7 @@ CLAIMED = {
         design_ref="DESIGN.md §5 C13",
         text="Partial claim: RegionCached (not region_local), threads in fixed regions. For every scenario (1-2 regions, initially uninitialised or holding generation 0; 2-3 threads with <= 2 operations each from set_global and a read in a region) z3 decides over ALL interleavings of the visible steps of the real functions, up to the step bound: "
              "once every write and read has returned, every region is either invalid or holds the latest generation written (no persistently stale region, no region stuck in 'Initializing'); a thread that writes and then reads in its region observes its own write when nobody else writes; successive reads of one thread in one region never go back in the single writer's order; no panic arm. "
-             "Found the genuine lost-invalidation defect (a write that lands between an initialiser's marker and its store), reproduced on the real crate through the public API and repaired (fix: 90c00c3, see known_findings.json). Bounded, not a proof.",
+             "Found the genuine lost-invalidation defect (a write that lands between an initialiser's marker and its store), reproduced on the real crate through the public API and repaired (fix: 90c00c3, see known_findings.json). A second genuine defect - the writer's own read can return the previous value because a reader installs an outdated copy behind the writer's invalidation - is reproduced natively (native/region_cached_own_write) and reported as KNOWN-FINDING (history pattern: own-write miss with a stale install; every other violation is still reported). Bounded, not a proof.",
         note="arc-swap / rsevents / OnceLock are contracts (single SC cells, wait may return early); linked, many_cpus and the region lookup are outside; generations <= 5; runs longer than the step bound are outside. Trusts rustc's MIR, the extraction tables (fail closed), z3.",
     ),
     "C15": dict(
@@ -157,6 +157,6 @@ NOT_APPLICABLE = {
 }
 
 NOTES = ("Technique family: solver-based checking of the real code (Kani/CBMC over compiled code; MIR->SMT for the lock-free protocols and for loop-free integer kernels). "
-         "Repairs of genuine defects in /repo: fix: commits 75fe83e (C06), 17418ce (C11), d0196c3 (C09), 90c00c3 (C13), recorded in known_findings.json; one recorded known finding (C08, manual-reset event). "
+         "Repairs of genuine defects in /repo: fix: commits 75fe83e (C06), 17418ce (C11), d0196c3 (C09), 90c00c3 (C13), recorded in known_findings.json; two recorded known findings (C08 manual-reset event; C13 own write not observed behind a stale regional install). "
          "Exit codes of ./check: 0 = property held on everything explored, 1 = VIOLATION (replayed against the real build), "
          "2 = no verdict (timeout, out of memory, unsupported construct, non-reproducing counterexample) - never reported as a pass.")
